@@ -9,12 +9,15 @@ from vcheck import *
 P = "Cppcms.C13.Props."
 OBLIGATIONS = [
     (P + "normalize_never_climbs", "for EVERY byte string p: normalize p is absolute and has no empty, '.' or '..' component (Spec.canonical)"),
+    (P + "normalize_fixes_canonical", "a canonical path is left unchanged by normalize (so the model is not trivially safe); corollary normalize_idempotent"),
+    (P + "normalize_idempotent", "normalize (normalize p) = normalize p for every byte string"),
     (P + "normalize_bytes_from_input", "every byte of normalize p is a byte of p or '/' (so a NUL-free request stays NUL-free)"),
     (P + "is_file_prefix_iff_component_prefix", "for canonical p, f: is_file_prefix p f <-> components of p are a list prefix of the components of f ('/al' does not match '/alX')"),
     (P + "alias_choice_component_wise", "the alias loop picks the first alias whose (canonical) url is a component-wise prefix of the normalised request, else the document root; the remainder is canonical"),
     (P + "served_inside_root_symlinks", "check_symlink on: whatever main opens (file or directory) is a realpath answer for root//rest of the chosen root and has that root as component-wise prefix"),
     (P + "served_lexical_no_symlink_check", "check_symlink off: whatever main opens is root ++ rest (as a std::string) with rest canonical (no '..'), root the chosen root"),
     (P + "served_lexical_cstring", "check_symlink off and NUL-free PATH_INFO/index/roots: the C string the kernel gets is that same root ++ rest"),
+    (P + "http_request_confined", "for EVERY request target: the two confinement theorems composed with the HTTP glue (urldecode, NUL cut); no assumption on the request left"),
     (P + "nul_truncation_needs_hypothesis", "model-level witness: with a NUL inside file_name, check_symlink off and listing on, main lists root/.. (why served_lexical_cstring needs NUL-freeness; unreachable: PATH_INFO is a C string)"),
     (P + "path_info_nul_free", "PATH_INFO derived from any HTTP request target is NUL-free"),
     (P + "only_regular_files_streamed", "serve path c: stat(path) has the S_IFREG bit and c is what reading path returned"),
@@ -146,6 +149,9 @@ def walk_path(rng, sb, aliases):
     start = [(b"", sb["root"])] + [(u, t) for u, t in aliases]
     pre, real = rng.choice(start)
     segs = [s for s in pre.split(b"/") if s]
+    if aliases and rng.random() < 0.15:
+        # an alias url again after the first one (a second match must not be applied to the remainder)
+        segs += [s for s in rng.choice(aliases)[0].split(b"/") if s]
     cur = real
     for _ in range(rng.randrange(0, 5)):
         try:
@@ -227,7 +233,8 @@ MALFORMED = [b"/%", b"/%4", b"/%zz/a.txt", b"/a.txt%", b"/%2", b"/sub%2", b"/a%2
              b"/a.txt/..", b"/a.txt/../a.txt", b"/ln_dangling", b"/ln_loop", b"/ln_loop/", b"/%3cb%3edir/", b"/%3cb%3edir", b"/<b>dir/", b"/.../", b"/...",
              b"/..x/", b"/..x/t.txt", b"/%ff%fe.bin", b"/\xff\xfe.bin", b"/a.txt?/../../secret.txt", b"/?", b"/sub?x", b"/we%3Cird%3E%26%27%22n.txt",
              b"/q%3fx.txt", b"/tab%09nl.txt", b"/ln_abs_in/", b"/ln_abs_in/z.txt", b"/ln_in/b.txt", b"/ln_in", b"/ln_file_in", b"/root/a.txt", b"/../root/a.txt",
-             b"/../rootX/rx.txt", b"/..../", b"/sub/.../", b"/../top.txt", b"/../unlinked/u.txt", b"/../unlinked/", b"/al/x/leak.txt", b"/al/../al1x/leak.txt",
+             b"/../rootX/rx.txt", b"/..../", b"/sub/.../", b"/al/deep/al/t1.txt", b"/al/al/t1.txt", b"/al/deep/al/deep/v.txt", b"/al/deep/al/", b"/alX/al/t1.txt", b"/other/x/al/t1.txt",
+             b"/../top.txt", b"/../unlinked/u.txt", b"/../unlinked/", b"/al/x/leak.txt", b"/al/../al1x/leak.txt",
              b"/%2e%2e/top.txt", b"/sub/../../top.txt", b"/al/%2e%2e/%2e%2e/top.txt", b"/" + b"a/" * 3000, b"/" + b"../" * 2000 + b"secret.txt", b"/" + b"sub/ln_up/" * 400 + b"a.txt",
              b"/" + b"x" * 300, b"/sub/" + b"y" * 5000]
 
@@ -452,7 +459,7 @@ def main():
             print("case :", cases[0]); print("impl :", out_i[:1]); print("model:", out_m[:1])
 
     # ------------------------------------------------------------ per-configuration streams
-    all_cfgs = [(s, l, a, k) for s in (1, 0) for l in (1, 0) for a in (0, 1) for k in range(len(ASETS))]
+    all_cfgs = [(s, l, a, k) for s in (1, 0) for l in (1, 0) for a in (0, 1, 2) for k in range(len(ASETS))]
     if replay and replay.get("stream") in ("cidr", "req"):
         cfgs = [tuple(replay["cfg"])]
     elif replay:
@@ -461,7 +468,7 @@ def main():
         cfgs = all_cfgs
     else:
         # every (sym, listing) pair with alias sets 1 and 3 (sync and async alternate), plus seed-chosen others
-        cfgs = [(s, l, (i + j) % 2, k) for i, (s, l) in enumerate(((1, 1), (1, 0), (0, 1), (0, 0))) for j, k in enumerate((1, 3))]
+        cfgs = [(s, l, (i + 2 * j) % 3, k) for i, (s, l) in enumerate(((1, 1), (1, 0), (0, 1), (0, 0))) for j, k in enumerate((1, 3))]
         for s_ in (1, 0):
             rest = [x for x in all_cfgs if x not in cfgs and x[0] == s_]
             cfgs += rng.sample(rest, 3)
